@@ -54,7 +54,7 @@ func (p c01) Run(c *core.Ctx) {
 		plan = map[string]world.SubPlan{}
 		for x := 0; x < 1+c.Rng.Intn(2); x++ {
 			nm := sc.Nodes[c.Rng.Intn(len(sc.Nodes))].DisplayName()
-			plan[nm] = []world.SubPlan{{Early: true}, {Early: true}, {After: true}, {Before: true}}[c.Rng.Intn(4)]
+			plan[nm] = []world.SubPlan{{Early: true}, {Early: true}, {After: true}, {Before: true}, {Early: true, After: true}, {Early: true, Before: true}, {Early: true, After: true, Same: true}}[c.Rng.Intn(7)]
 		}
 	} else if c.Index < rc {
 		sc = RandomGraph(c.Rng, GraphOpts{MinN: 3, MaxN: 14, Types: world.TypesAll, PCycle: 0.7, Chords: 2,
@@ -97,7 +97,7 @@ func (p c01) Run(c *core.Ctx) {
 		case "error":
 			c.Count("failed_starts_skipped", 1)
 			continue
-		case "panic", "diverged":
+		case "panic", "diverged", "stalled":
 			// not C01's claim (C02/C09 own it) but never silently dropped
 			c.Count("abnormal_starts_skipped", 1)
 			continue
